@@ -18,4 +18,6 @@ for sid in sids:
                 "deductive_violation": any("no-failing-input-found" in l or ("/bounded/" not in l) for l in viol),
                 "bounded_violation": any("/bounded/" in l for l in viol)}
     print(sid, p.returncode, "L1" if res[sid]["deductive_violation"] else "-", "L2" if res[sid]["bounded_violation"] else "-", res[sid]["wall_s"], (viol or [""])[0][60:200], flush=True)
-    json.dump(res, open("/verif/seeded/RESULTS.json","w"), indent=1)
+    cur = json.load(open("/verif/seeded/RESULTS.json"))      # re-read: another run of this tool may have added entries meanwhile
+    cur[sid] = res[sid]
+    json.dump(cur, open("/verif/seeded/RESULTS.json","w"), indent=1)
